@@ -117,7 +117,15 @@ func run(r *vt.Run, t vt.TB, s spec) {
 		}
 		return rows
 	}
+	colSnapshot := func() string {
+		rows, err := env.O.Query("w", "SELECT group_concat(name) FROM pragma_table_info('t')")
+		if err != nil || len(rows) != 1 {
+			r.Harness(t, "column snapshot: %v", err)
+		}
+		return string(rows[0][0].B)
+	}
 	committed := snapshot()
+	committedCols := colSnapshot()
 	committedW, _ := env.O.Query("w", "SELECT k, v FROM w ORDER BY k")
 
 	hi, err := sqlittle.Open(path)
@@ -221,7 +229,12 @@ func run(r *vt.Run, t vt.TB, s spec) {
 					seq++
 					err := do("w", fmt.Sprintf("INSERT INTO t (b, c) VALUES (%d, 'with-ddl%d')", seq, seq))
 					if err == nil {
-						err = do("w", fmt.Sprintf("CREATE INDEX ddl%d ON t (c, b)", seq))
+						if seq%2 == 0 {
+							// (a change our own calls can see: the column list)
+							err = do("w", fmt.Sprintf("ALTER TABLE t ADD COLUMN d%d DEFAULT %d", seq, seq))
+						} else {
+							err = do("w", fmt.Sprintf("CREATE INDEX ddl%d ON t (c, b)", seq))
+						}
 					}
 					if err == nil {
 						wrote = true
@@ -288,6 +301,7 @@ func run(r *vt.Run, t vt.TB, s spec) {
 							// (under the third process' write lock only a transaction
 							// that wrote nothing can have committed)
 							committed = snapshot()
+							committedCols = colSnapshot()
 						}
 					case busy(err):
 						// a reader blocks the commit: SQLite keeps the PENDING lock
@@ -460,9 +474,12 @@ func run(r *vt.Run, t vt.TB, s spec) {
 		case "columns":
 			cols, err := hi.Columns("t")
 			gerr = err
-			if err == nil && strings.Join(cols, ",") != "a,b,c" {
-				r.Violation(t, s, "wrong-columns", "Columns(t) = %v in state %s", cols, seen)
+			if err == nil && strings.Join(cols, ",") != committedCols {
+				r.Violation(t, s, "wrong-columns", "after %v: Columns(t) = %v in state %s; the last commit left %s", history, cols, seen, committedCols)
 				return
+			}
+			if committedCols != "a,b,c" {
+				classes["columns-read-after-a-committed-alter-table"] = true
 			}
 			want = nil
 		case "low-scan":
